@@ -9,18 +9,19 @@
    Definitions only; proofs are in Proofs.v / ProofsPD.v / ProofsReg.v.
 
    Addresses are (family, number) pairs: what netip.Addr is after AddrFromSlice.
-   [variant] selects the behaviour of the two places where the code as found violates the
+   [variant] selects between the current behaviour and the behaviour of places where earlier code violated the
    property (Defective) and the repaired behaviour (Repaired) for which the theorems hold. *)
 From OV Require Import Common.Base.
 Local Open Scope N_scope.
 
-(* Repaired  : every recorded defect repaired (the theorems)
-   Defective : the code as first found (Release pushes unassignable addresses back, prefixToIndex
-               accepts foreign prefixes, one poolVRFs map shared by the three pool families)
-   SharedVrf : Release and prefixToIndex repaired, poolVRFs still shared
-   Unguarded : all of the above repaired; the range loops of buildFreeList / parseExcludeRange have no
-               guard against running past the last address, NewPrefixAllocator accepts prefix
-               lengths above 128 *)
+(* Repaired  : what /repo does now - every recorded defect is fixed there - and what the theorems are about.
+   The other variants are EARLIER states of the code, kept only as the subjects of the `_refuted`
+   theorems (historical witnesses); the correspondence check no longer uses them:
+   Defective : before d00d766 / c2652db (Release pushed unassignable addresses back on the free list;
+               prefixToIndex accepted foreign prefixes) - and everything below
+   SharedVrf : before 85029df (one poolVRFs map shared by the three pool families) - and everything below
+   Unguarded : before a1ebdc8 / 1de6b72 (range loops of buildFreeList / parseExcludeRange ran past the last
+               address; NewPrefixAllocator accepted prefix lengths above 128) *)
 Inductive variant := Repaired | Defective | SharedVrf | Unguarded.
 Definition is_defective (v : variant) : bool := match v with Defective => true | _ => false end.
 Definition shared_vrf (v : variant) : bool := match v with Defective | SharedVrf => true | _ => false end.
@@ -113,7 +114,7 @@ Definition range_terminates (v : variant) (lo hi : addr) : bool :=
   (fam_eqb (fst lo) (fst hi) && N.ltb (snd hi) (fam_max (fst hi))).
 
 (* NewPoolAllocator(rangeStart, rangeEnd, exclude): None = never returns.
-   Range ends of different families: as found, IPv4..IPv6 runs off the end of the IPv4 space
+   Range ends of different families: before a1ebdc8, IPv4..IPv6 ran off the end of the IPv4 space
    (never returns) and IPv6..IPv4 is an empty range that contains nothing; repaired, both are
    the empty range. *)
 Definition empty_geom (excl : list addr) : pcfg := {| p_fam := V4; p_lo := 1; p_hi := 0; p_excl := excl |}.
@@ -175,7 +176,7 @@ Definition pool_step (v : variant) (c : pcfg) (st : pstate) (k : call) : option 
   | CRelease (Some a) =>
       match lm_lookup a (leases st) with
       | Some _ =>
-          (* as found: the address goes back on the free list whatever it is.
+          (* before d00d766: the address went back on the free list whatever it was.
              repaired: only an assignable address goes back *)
           let back := is_defective v || assignable c a in
           Some ({| free := if back then free st ++ [a] else free st;
@@ -329,7 +330,7 @@ Definition pd_step (v : variant) (c : pdcfg) (st : pstate) (k : pdcall) : option
       match pool_step v pc st (CAlloc s None) with Some (st', _) => Some (st', QExhausted) | None => None end
   | PAlloc s (Some (ip, ones, bits)) =>
       if N.ltb 128 (pd_plen c)
-      then (* as found with plen > 128: every index yields the base address and net.CIDRMask(plen, 128)
+      then (* before 1de6b72, with plen > 128 (now refused by pd_new): every index yields the base address and net.CIDRMask(plen, 128)
               is nil (Size() = 0,0); the answer does not identify the index, any free one is consumed *)
            match lifo_choice st with
            | Some a =>
@@ -484,7 +485,7 @@ Definition set_lists (st : rstate) (f : rfam) (l : list (N * list key)) : rstate
 Definition set_vrfs (st : rstate) (m : list ((rfam * key) * N)) : rstate :=
   {| r_a4 := r_a4 st; r_ana := r_ana st; r_apd := r_apd st; r_l4 := r_l4 st; r_lna := r_lna st; r_lpd := r_lpd st; r_vrfs := m |}.
 
-(* as found: one map keyed by "profile/pool" for all three families; repaired: one per family *)
+(* before 85029df: one map keyed by "profile/pool" for all three families; now: one per family *)
 Definition vkey (v : variant) (f : rfam) (k : key) : rfam * key := if shared_vrf v then (F4, k) else (f, k).
 Definition vkey_eqb (a b : rfam * key) : bool := rfam_eqb (fst a) (fst b) && key_eqb (snd a) (snd b).
 
